@@ -14,13 +14,18 @@ Hypotheses forced by the proofs, and what the real code does at the excluded poi
 * F2 — a metric / label name that the legacy pattern accepts although it ends in '\n' (`$` matches before a final line
   feed): written bare, it splits the line; `Gauge('a','h',['l\n'])` → `a{l\n="v"} 1.0` → the parser raises ValueError.
   A violation of C03 reachable through the public constructors: a finding (witness theorem `f2_label_name_breaks`).
-* label names rejected by `_validate_labelname` (`__name__`, any `__…` name; under legacy validation every non-legacy
-  name): the parser re-validates label names and raises ValueError.  Only reachable through `Metric.add_sample`, which
-  does not validate; outside "expressible through the public API" (the constructors reject these names).
+* F20 — label names rejected by `_validate_labelname` (`__name__`, any `__…` name; under legacy validation every
+  non-legacy name): the parser re-validates label names and raises ValueError, but several public paths write label
+  names that were never validated: `Enum('__e', …)` / `Enum('a:b', …)` under legacy validation and
+  `StateSetMetricFamily` (the metric name becomes a label name), `Info('i','h').info({'__k': 'v'})`, the `labels=`
+  argument of every `*MetricFamily` helper, `Metric.add_sample`.  A violation of C03 reachable through the public API:
+  a finding (witness theorem `f20_reserved_label_name_rejected`); `LabelsOK` excludes exactly these names.
+* sample names `Metric()` would reject (empty; non-legacy under legacy validation) — only reachable through
+  `Metric.add_sample`, which validates nothing: outside "expressible through the public API".
 -/
 import PromVerif.Model.TextExpo
 import PromVerif.Model.TextParse
-import PromVerif.Lemmas.TextParseSample
+import PromVerif.Lemmas.TextParseRoundtrip
 
 namespace PromVerif.Props.C03
 open PromVerif.Py PromVerif.Model PromVerif.Model.Escape PromVerif.Model.ParseCore PromVerif.Model.Validation
@@ -104,5 +109,98 @@ def exSample : Sample :=
 
 example : SampleOK false exSample := ⟨by decide, by decide, by decide⟩
 example : sampleLine { exSample with ts := none } = "{\"a b\",l=\"x\\\\\\\"\\n,}\",\"é\"=\"\"} 1.2345678901234568e+19\n".toList := by decide
+
+
+/-- F20 witness: a reserved label name (as `Enum('__e', …)` produces) is written, quoted, and rejected by the parser -/
+theorem f20_reserved_label_name_rejected :
+    labelStr [("__e".toList, "a".toList)] = "\"__e\"=\"a\"".toList ∧
+      parseLabels false (labelStr [("__e".toList, "a".toList)]) false = .error .valueError ∧
+      parseLabels true (labelStr [("a:b".toList, "a".toList)]) false = .error .valueError :=
+  ⟨by decide, by rfl, by rfl⟩
+
+-- metadata lines ---------------------------------------------------------------------------------------------------------
+
+/-- **HELP line round trip**: a rendered `# HELP` line (either HELP site of `generate_latest`) is the content below plus
+a line feed; from the initial state the parser opens a family with exactly the written name — legacy or quoted with
+separators inside — and a help text `helpDoc doc` that is `doc` up to trailing blanks (quotes, backslash-n adjacency and
+leading blanks are preserved) -/
+theorem help_line_roundtrip (legacy : Bool) (pyInt : Str → Option Int) (pyFloat : Str → Option Nat) {n : Str}
+    (h : metricNameOK legacy n = true) (doc : Str) (tr : Bool) :
+    helpLine n doc tr = helpContent n doc ++ ['\n'] ∧
+    stepLine legacy pyInt pyFloat St.init (helpContent n doc) =
+      .ok ({ name := n, doc := helpDoc doc, typ := "untyped".toList, samples := [], allowed := [n] }, []) ∧
+    ∃ j, doc = helpDoc doc ++ j ∧ j.all isPySpace = true := by
+  refine ⟨helpLine_eq n doc tr, ?_, helpDoc_spec doc⟩
+  rw [stepLine_help legacy pyInt pyFloat St.init h doc]
+  have hne : (n != St.init.name) = true := by
+    have := metricNameOK_ne_nil h
+    simpa [St.init] using this
+  simp only [hne, ↓reduceIte]
+  rfl
+
+example : metricNameOK false "a b\"\\,{".toList = true ∧ metricNameOK true "a:b_total".toList = true := by decide
+example : helpDoc " x\\n\"\n  ".toList = " x\\n\"\n".toList := by
+  decide
+
+/-- **TYPE line round trip**: after the HELP line of the same family the parser sets the written type and the allowed
+sample names of that type -/
+theorem type_line_roundtrip (legacy : Bool) (pyInt : Str → Option Int) (pyFloat : Str → Option Nat) (st : St) {n typ : Str}
+    (h : metricNameOK legacy n = true) (ht : TypWord typ) (hst : st.name = n) :
+    typeLine n typ = typeContent n typ ++ ['\n'] ∧
+    stepLine legacy pyInt pyFloat st (typeContent n typ) =
+      .ok ({ st with typ := typ, allowed := (allowedSuffixes typ).map (n ++ ·) }, []) := by
+  refine ⟨typeLine_eq n typ, ?_⟩
+  subst hst
+  rw [stepLine_type legacy pyInt pyFloat st h ht]
+  have : (st.name != st.name) = false := by simp
+  simp only [this, Bool.false_eq_true, ↓reduceIte]
+  rfl
+
+example : TypWord "histogram".toList ∧ TypWord "untyped".toList := by decide
+
+-- the document -----------------------------------------------------------------------------------------------------------
+
+/-- **document-level round trip, samples**: for every expressible registry content — families of any of the eight types
+from any source (instrumentation classes, `*MetricFamily` helpers, custom collectors whose sample names differ from the
+family name), `_created`/`_gsum`/`_gcount` samples moved into trailing gauge families — the exposition parses, and the
+parsed families carry exactly the exposed samples (name, label dict, value token, millisecond count), in exposition
+order (`exposedSamples`: per family the non-trailing samples, then the trailing groups in sorted suffix order).
+`Expressible` = per family: type in METRIC_TYPES, name accepted by `Metric()` and not F2; per sample `SampleGood`
+(`SampleOK`, the number laws, name accepted by `Metric()`). -/
+theorem text_roundtrip_samples (legacy : Bool) (pyInt : Str → Option Int) (pyFloat : Str → Option Nat) (fs : List Family)
+    (h : Expressible legacy pyInt pyFloat fs) :
+    ∃ fams, textParse legacy pyInt pyFloat (generateLatest fs) = .ok fams ∧
+      flatten fams = (exposedSamples fs).map (expSample pyFloat) :=
+  Lemmas.TextParse.text_roundtrip_samples legacy pyInt pyFloat fs h
+
+
+/-- non-vacuity: a counter with an adversarial label value and help and a `_created` sample (moved to a trailing gauge
+family), and a gauge with a UTF-8 name holding NaN -/
+def exFams : List Family :=
+  [⟨"c".toList, "help \\ x\n".toList, "counter".toList, [],
+      [⟨"c_total".toList, [("l".toList, "x\"y\\".toList)], "1.0".toList, none, none⟩,
+       ⟨"c_created".toList, [], "5.0".toList, none, none⟩]⟩,
+   ⟨"é g".toList, [], "gauge".toList, [], [⟨"é g".toList, [], "nan".toList, none, none⟩]⟩]
+
+example : Expressible false (fun _ => none) (fun _ => some 0) exFams := by
+  have hs : ∀ s : Sample, SampleOK false s → s.ts = none → validateMetricName false s.name = .ok () →
+      SampleGood false (fun _ => none) (fun _ => some 0) s :=
+    fun s h1 h2 h3 => ⟨h1, rfl, rfl, fun m hm => by simp [millisOf, h2] at hm, h3⟩
+  intro fam hf
+  simp only [exFams, List.mem_cons, List.not_mem_nil, or_false] at hf
+  rcases hf with rfl | rfl
+  · refine ⟨by decide, by decide, ?_⟩
+    intro s hm
+    simp only [List.mem_cons, List.not_mem_nil, or_false] at hm
+    rcases hm with rfl | rfl
+    · exact hs _ ⟨by decide, by decide, by decide⟩ rfl rfl
+    · exact hs _ ⟨by decide, by decide, by decide⟩ rfl rfl
+  · refine ⟨by decide, by decide, ?_⟩
+    intro s hm
+    simp only [List.mem_cons, List.not_mem_nil, or_false] at hm
+    subst hm
+    exact hs _ ⟨by decide, by decide, by decide⟩ rfl rfl
+
+example : (exposedSamples exFams).map (·.name) = ["c_total".toList, "c_created".toList, "é g".toList] := by decide
 
 end PromVerif.Props.C03
